@@ -55,6 +55,50 @@ def showStream (s : Stream) : String :=
 def unhexList (s : String) : Option (List Bytes) :=
   if s = "-" then some [] else (s.splitOn ",").mapM unhex
 
+def showP (r : R Parsed) : String :=
+  match r with
+  | .complete p _ => showParsed p 0
+  | e => showR e
+
+/-- One exchange of `h1.relay`: `method:request:upstream bytes:response:downstream bytes`. The line
+is the model's PREDICTION of what origin and client receive (relay + wire + reader); `!reader` is
+appended when the model's reader does not read the real bytes to the same message. -/
+def relayOne (i : Nat) (tok : String) : Option String :=
+  if tok = "-" then some s!"{i}:unserved" else
+  match tok.splitOn ":" with
+  | [m, rq, up, rs, dn] => do
+    let m ← unhex m; let rq ← unhex rq; let up ← unhex up; let rs ← unhex rs; let dn ← unhex dn
+    match readRequest rq with
+    | .complete p _ =>
+      match relayRequest p with
+      | none => pure "out-of-model"
+      | some x =>
+        let upPred := readRequest x.wire
+        let upS := if up.isEmpty then "none" else
+          showP upPred ++ (if stopOf (readRequest up) == stopOf upPred && showP (readRequest up) == showP upPred then "" else "!reader")
+        match readResponse m rs with
+        | .complete q _ =>
+          (match relayResponse m p.close q with
+           | none => pure "out-of-model"
+           | some y =>
+             let dnPred := readResponse m y.wire
+             let dnS := showP dnPred ++ (if showP (readResponse m dn) == showP dnPred then "" else "!reader")
+             pure s!"{i}:up=[{upS}] down=[{dnS}]")
+        | .outOfModel => pure "out-of-model"
+        | _ => pure s!"{i}:up=[{upS}] down=[?]"
+    | .outOfModel => pure "out-of-model"
+    | _ => pure s!"{i}:bad-request"
+  | _ => none
+
+def relayAll (toks : List String) : Option String := do
+  let n := toks.length
+  if n == 0 then none else
+  let xs := toks.take (n - 1)
+  let extra := toks.getLastD "0"
+  let lines ← (xs.zipIdx.mapM fun (t, i) => relayOne i t)
+  if lines.contains "out-of-model" then pure "out-of-model"
+  else pure (" ; ".intercalate lines ++ s!" ; extra={extra}")
+
 def step (toks : List String) : Option String :=
   match toks with
   | ["h1.readreq", s] => (unhex s).map fun b => showR (readRequest b)
@@ -82,6 +126,7 @@ def step (toks : List String) : Option String :=
              let pred := readResponse m x.wire
              showR pred ++ " w=" ++ b01 (pred == readResponse m w))
         | e => if (readResponseHead m b).isComplete then "body-error" else showR e)
+  | "h1.relay" :: rest => relayAll rest
   | _ => none
 
 end Martian.Drv.Http1
